@@ -434,11 +434,16 @@ impl PeerDHTRecord {
     }
 
     /// Get a hash of this record for deduplication
+    ///
+    /// Covers every signed byte and the signature itself, so two records share a
+    /// hash only if signature verification cannot tell them apart. (A record whose
+    /// signable message cannot be built never verifies; only its signature is hashed.)
     pub fn content_hash(&self) -> Hash {
         let mut hasher = blake3::Hasher::new();
-        hasher.update(&self.user_id.hash);
-        hasher.update(&self.sequence_number.to_be_bytes());
-        hasher.update(&self.timestamp.to_be_bytes());
+        if let Ok(message) = self.create_signable_message() {
+            hasher.update(&message);
+        }
+        hasher.update(self.signature.as_bytes());
         hasher.finalize()
     }
 }
